@@ -60,10 +60,19 @@ def showOut : Out → String
   | .ok => "ok"
   | .err => "err"
 
-/-- the running model: an `Impl` with its current state -/
+/-- the running model: a configuration with the current state of its model -/
 structure Running where
-  I : Impl
-  s : I.σ
+  c : Cfg
+  s : (interp route isSchema c).σ
+
+def Running.I (r : Running) : Impl := interp route isSchema r.c
+
+/-- pre-populate the lower layer of a root-level overlay (the blob is received by the lower store
+directly, as if it had been there before the overlay was put on top) -/
+def seedLower : (r : Running) → Bytes → Bytes → Option Running
+  | ⟨.overlay l u, (ls, us, del)⟩, k, v =>
+    some ⟨.overlay l u, (((interp route isSchema l).step ls (.recv k v)).1, us, del)⟩
+  | _, _, _ => none
 
 abbrev St := Option Running
 
@@ -78,24 +87,32 @@ def step (st : St) (ws : List String) : St × String :=
   | "cfg" :: rest =>
     -- everything after `//` describes the real tree (leaf kinds, sizes) for the harness only
     match parseCfg (rest.takeWhile (· != "//")) with
-    | some (c, []) => let I := interp route isSchema c; (some ⟨I, I.init⟩, "ok")
+    | some (c, []) => (some ⟨c, (interp route isSchema c).init⟩, "ok")
     | _ => (st, "bad-op")
   | _ =>
     match st with
     | none => (st, "bad-op")
-    | some ⟨I, s⟩ =>
+    | some ⟨c, s⟩ =>
+      let I := interp route isSchema c
       match ws with
+      | ["seedlower", k, v] =>
+        (match hexArg k, hexArg v with
+         | some k, some v =>
+           (match seedLower ⟨c, s⟩ k v with
+            | some r => (some r, "ok")
+            | none => (st, "bad-op"))
+         | _, _ => (st, "bad-op"))
       | ["recv", k, v] =>
         (match hexArg k, hexArg v with
-         | some k, some v => let (s', o) := I.step s (.recv k v); (some ⟨I, s'⟩, showOut o)
+         | some k, some v => let (s', o) := I.step s (.recv k v); (some ⟨c, s'⟩, showOut o)
          | _, _ => (st, "bad-op"))
       | ["fetch", k] =>
         (match hexArg k with
-         | some k => let (s', o) := I.step s (.fetch k); (some ⟨I, s'⟩, showOut o)
+         | some k => let (s', o) := I.step s (.fetch k); (some ⟨c, s'⟩, showOut o)
          | none => (st, "bad-op"))
       | ["enum", a, n] =>
         (match hexArg a, n.toNat? with
-         | some a, some n => let (s', o) := I.step s (.enum a n); (some ⟨I, s'⟩, showOut o)
+         | some a, some n => let (s', o) := I.step s (.enum a n); (some ⟨c, s'⟩, showOut o)
          | _, _ => (st, "bad-op"))
       | "stat" :: ks =>
         (match allHex ks with
@@ -107,7 +124,7 @@ def step (st : St) (ws : List String) : St × String :=
              | (s', .sized n) => (s', insSorted (k, n) acc, bad)
              | (s', .notExist) => (s', acc, bad)
              | (s', _) => (s', acc, true)) (s, [], false)
-           (some ⟨I, s'⟩, if bad then "err" else ("stats " ++ showPairs acc).trimRight))
+           (some ⟨c, s'⟩, if bad then "err" else ("stats " ++ showPairs acc).trimRight))
       | "rm" :: ks =>
         (match allHex ks with
          | none => (st, "bad-op")
@@ -116,7 +133,7 @@ def step (st : St) (ws : List String) : St × String :=
              match I.step s (.rm k) with
              | (s', .ok) => (s', bad)
              | (s', _) => (s', true)) (s, false)
-           (some ⟨I, s'⟩, if bad then "err" else "ok"))
+           (some ⟨c, s'⟩, if bad then "err" else "ok"))
       | _ => (st, "bad-op")
 
 def machine : Machine := { σ := St, init := none, step := step }
